@@ -35,7 +35,7 @@ Definition of_mod (m : N) (i : item) : bool :=
   match item_mod i with Some m' => m' =? m | None => false end.
 
 Lemma is_run_of_mod m i : is_run m i = true -> of_mod m i = true.
-Proof. destruct i as [m' c t a| | | | | | | | | |]; try discriminate. destruct c; try discriminate; exact (fun H => H). Qed.
+Proof. destruct i as [m' c t a| | | | | | | | | | | |]; try discriminate. destruct c; try discriminate; exact (fun H => H). Qed.
 
 Lemma own_not_of_mod m1 m l : Own m1 l -> m1 <> m -> forallb (fun i => negb (of_mod m i)) l = true.
 Proof.
@@ -129,10 +129,10 @@ Lemma start_cb_down sc stage m s : stage <> 0 -> Down m (x_w s) ->
   x_log (start_cb sc stage m s) = x_log s ++ [ICall m (CbStart stage) 0 false].
 Proof.
   intros Hst H. pose proof H as [a b c d]. unfold start_cb, at_sim_start.
-  apply N.eqb_neq in Hst. rewrite Hst. unfold exec, spawn_all. cbn [combine seq length map run_prog].
+  apply N.eqb_neq in Hst. rewrite Hst. unfold exec, spawn_all, spawn_items. cbn [combine seq length map run_prog].
   unfold poll_ready. wsimpl. rewrite !N.eqb_refl. wsimpl. rewrite b. cbn [app fold_left catch fst].
-  wsimpl. rewrite a. split; [|reflexivity].
-  constructor; cbn [w_mod set_mod]; rewrite !N.eqb_refl; cbn [active ready timers shut set_ready]; first [assumption|reflexivity].
+  wsimpl. rewrite a, !app_nil_r. split; [|reflexivity].
+  constructor; cbn [w_mod set_mod]; rewrite !N.eqb_refl; cbn [active ready timers shut set_ready set_hnd]; first [assumption|reflexivity].
 Qed.
 
 (* ---- one step ---- *)
@@ -260,7 +260,7 @@ Proof.
   assert (Hc : forall p s, x_log s = x_log s2 -> ready (w_mod (x_w s) m) = [] ->
      no_run m (x_log (let '(w2, e) := catch (cfg sc m) m p (x_w s) in
                       let s2' := {| x_w := w2; x_log := x_log s |} in
-                      if e then s2' else on_w (fun w0 => set_err w0 (w_err w0 ++ repeat (true, m) (N.to_nat (tpanics (w_mod w0 m)))))
+                      if e then s2' else on_w (fun w0 => set_err w0 (w_err w0 ++ join_errs (cfg sc m) m (w_mod w0 m)))
                                                (poll_ready (nmods sc) now m s2')))).
   { intros p s Ls Rs. unfold catch. destruct p.
     - destruct (catchf (w_mod (x_w s) m)); cbn [x_log on_w].
@@ -274,7 +274,7 @@ Proof.
   destruct r.
   - destruct (Hpoll s2 R2) as [P1 P2]. apply (Hc false (poll_ready (nmods sc) now m s2) P1 P2).
   - apply (Hc true s2 eq_refl R2).
-  - apply (Hc false (on_w (fun w0 => set_mod w0 m (set_ready (w_mod w0 m) [])) s2)); [reflexivity|].
+  - rewrite R2. cbn [fold_left]. apply (Hc false (on_w (fun w0 => set_mod w0 m (set_ready (w_mod w0 m) [])) s2)); [reflexivity|].
     wsimpl. rewrite N.eqb_refl. reflexivity.
   - destruct (Hpoll s2 R2) as [P1 P2]. apply (Hc false (poll_ready (nmods sc) now m s2) P1 P2).
 Qed.
